@@ -337,6 +337,22 @@ impl Uci {
                 let (mut time_strategy, control) =
                     TimeStrategy::new(&self.game, &time_control, &options);
 
+                #[cfg(jgilchrist_tcheran_verif)]
+                util::verif::note_go(&util::verif::GoNote {
+                    white_to_move: self.game.player == crate::chess::player::Player::White,
+                    kind: match time_control {
+                        TimeControl::Clocks(_) => "clocks",
+                        TimeControl::ExactTime(_) => "exact",
+                        TimeControl::Infinite => "infinite",
+                    },
+                    clocks: [*wtime, *btime, *winc, *binc],
+                    moves_to_go: *movestogo,
+                    move_time: *movetime,
+                    depth: *depth,
+                    move_overhead: options.move_overhead,
+                    limits: time_strategy.verif_limits(),
+                });
+
                 self.control = Some(control);
 
                 let search_restrictions = SearchRestrictions { depth: *depth };
